@@ -1221,6 +1221,8 @@ func (g *Gen) one() (Action, bool) {
 			// the removal of a URR answered without the final report attributes
 			return Action{Op: "fault", Fault: &FaultSpec{Op: "del", Kind: "urr", Skip: g.intn(3), Empty: true}}, true
 		}
+		// no removal faults: C01 quantifies over failing creates, updates and queries; a
+		// removal the data plane refuses leaves a rule behind by definition
 		f := &FaultSpec{Op: pick(g.rng, "add-create", "add-create", "add-update", "report", "multi", "get", "any"), Skip: g.intn(6),
 			Errno: pick(g.rng, 17, 2, 12, 16, 22), Late: g.chance(0.35)}
 		if g.chance(0.5) {
